@@ -80,6 +80,8 @@ type Layout struct {
 	LongNum bool   `json:"longnum"` // numbers in the five-byte form
 	Enc     string `json:"enc"`     // std | custom | customseac | none
 	Lead    int    `json:"lead"`    // binary container: which legal first cipher byte to use (see leadBytes)
+	Eol     string `json:"eol"`     // line ends of the text: lf (default) | cr | crlf
+	Fill    int    `json:"fill"`    // used by the replayer: so many copies of the last glyph under further names
 }
 
 // leadBytes are legal first bytes of a binary eexec section: the Type 1 book only
@@ -98,6 +100,7 @@ type FontSpec struct {
 	Info     []string       // lines inside FontInfo, e.g. "/version (001.000) readonly def"
 	Private  []string       // extra lines inside Private, e.g. "/BlueValues [ -10 0 ] def"
 	Header   []string       // comment lines after the %! line
+	Matrix   string         // the six numbers of /FontMatrix ("" = 0.001 0 0 0.001 0 0)
 	LenIVRaw *int64         // written verbatim as /lenIV (hostile values), cipher uses Layout.LenIV
 }
 
@@ -106,52 +109,69 @@ type FontSpec struct {
 // appendix), not the library's template.
 func WriteFont(f *FontSpec, lay Layout) ([]byte, error) {
 	var clear, priv, trailer bytes.Buffer
+	// the line ends of the text portions; the byte after "eexec" stays a single line feed in front of
+	// binary data (the Type 1 book asks for exactly one white-space character there)
+	nl := "\n"
+	switch lay.Eol {
+	case "cr":
+		nl = "\r"
+	case "crlf":
+		nl = "\r\n"
+	}
+	matrix := f.Matrix
+	if matrix == "" {
+		matrix = "0.001 0 0 0.001 0 0"
+	}
 	rd, nd, np := "RD", "ND", "NP"
 	if lay.Names == "bar" {
 		rd, nd, np = "-|", "|-", "|"
 	}
-	fmt.Fprintf(&clear, "%%!PS-AdobeFont-1.0: %s 001.001\n", f.FontName)
+	fmt.Fprintf(&clear, "%%!PS-AdobeFont-1.0: %s 001.001%s", f.FontName, nl)
 	for _, h := range f.Header {
-		clear.WriteString(h + "\n")
+		clear.WriteString(h + nl)
 	}
-	clear.WriteString("11 dict begin\n/FontInfo 10 dict dup begin\n")
+	clear.WriteString("11 dict begin" + nl + "/FontInfo 10 dict dup begin" + nl)
 	for _, l := range f.Info {
-		clear.WriteString(l + "\n")
+		clear.WriteString(l + nl)
 	}
-	clear.WriteString("end readonly def\n")
-	fmt.Fprintf(&clear, "/FontName /%s def\n", f.FontName)
+	clear.WriteString("end readonly def" + nl)
+	fmt.Fprintf(&clear, "/FontName /%s def%s", f.FontName, nl)
 	switch lay.Enc {
 	case "std":
-		clear.WriteString("/Encoding StandardEncoding def\n")
+		clear.WriteString("/Encoding StandardEncoding def" + nl)
 	case "none":
 	default:
-		clear.WriteString("/Encoding 256 array\n0 1 255 {1 index exch /.notdef put} for\n")
+		clear.WriteString("/Encoding 256 array" + nl + "0 1 255 {1 index exch /.notdef put} for" + nl)
 		for c := 0; c < 256; c++ {
 			if n, ok := f.Encoding[c]; ok {
-				fmt.Fprintf(&clear, "dup %d /%s put\n", c, n)
+				fmt.Fprintf(&clear, "dup %d /%s put%s", c, n, nl)
 			}
 		}
-		clear.WriteString("readonly def\n")
+		clear.WriteString("readonly def" + nl)
 	}
-	clear.WriteString("/PaintType 0 def\n/FontType 1 def\n/FontMatrix [0.001 0 0 0.001 0 0] readonly def\n/FontBBox {0 0 0 0} readonly def\ncurrentdict end\n")
+	clear.WriteString("/PaintType 0 def" + nl + "/FontType 1 def" + nl + "/FontMatrix [" + matrix + "] readonly def" + nl + "/FontBBox {0 0 0 0} readonly def" + nl + "currentdict end" + nl)
 	if lay.Cont != "clear" {
-		clear.WriteString("currentfile eexec\n")
+		if lay.Cont == "pfa" {
+			clear.WriteString("currentfile eexec" + nl)
+		} else {
+			clear.WriteString("currentfile eexec\n")
+		}
 	}
 
-	priv.WriteString("dup /Private 17 dict dup begin\n")
-	fmt.Fprintf(&priv, "/%s {string currentfile exch readstring pop} executeonly def\n", rd)
-	fmt.Fprintf(&priv, "/%s {noaccess def} executeonly def\n", nd)
-	fmt.Fprintf(&priv, "/%s {noaccess put} executeonly def\n", np)
+	priv.WriteString("dup /Private 17 dict dup begin" + nl)
+	fmt.Fprintf(&priv, "/%s {string currentfile exch readstring pop} executeonly def%s", rd, nl)
+	fmt.Fprintf(&priv, "/%s {noaccess def} executeonly def%s", nd, nl)
+	fmt.Fprintf(&priv, "/%s {noaccess put} executeonly def%s", np, nl)
 	for _, l := range f.Private {
-		priv.WriteString(l + "\n")
+		priv.WriteString(l + nl)
 	}
-	priv.WriteString("/MinFeature {16 16} def\n/password 5839 def\n")
+	priv.WriteString("/MinFeature {16 16} def" + nl + "/password 5839 def" + nl)
 	if f.LenIVRaw != nil {
-		fmt.Fprintf(&priv, "/lenIV %d def\n", *f.LenIVRaw)
+		fmt.Fprintf(&priv, "/lenIV %d def%s", *f.LenIVRaw, nl)
 	} else if lay.LenIV != 4 {
-		fmt.Fprintf(&priv, "/lenIV %d def\n", lay.LenIV)
+		fmt.Fprintf(&priv, "/lenIV %d def%s", lay.LenIV, nl)
 	}
-	fmt.Fprintf(&priv, "/Subrs %d array\n", len(f.Subrs))
+	fmt.Fprintf(&priv, "/Subrs %d array%s", len(f.Subrs), nl)
 	for i, s := range f.Subrs {
 		if s == nil {
 			continue // an unassigned slot of the array (as a subsetter leaves behind)
@@ -163,10 +183,10 @@ func WriteFont(f *FontSpec, lay Layout) ([]byte, error) {
 		cs := ObfuscateCharstring(plain, lay.LenIV)
 		fmt.Fprintf(&priv, "dup %d %d %s ", i, len(cs), rd)
 		priv.Write(cs)
-		fmt.Fprintf(&priv, " %s\n", np)
+		fmt.Fprintf(&priv, " %s%s", np, nl)
 	}
-	fmt.Fprintf(&priv, "%s\n", nd)
-	fmt.Fprintf(&priv, "2 index /CharStrings %d dict dup begin\n", len(f.Glyphs))
+	fmt.Fprintf(&priv, "%s%s", nd, nl)
+	fmt.Fprintf(&priv, "2 index /CharStrings %d dict dup begin%s", len(f.Glyphs), nl)
 	for _, name := range f.Glyphs {
 		var plain []byte
 		if raw, ok := f.RawCS[name]; ok {
@@ -181,15 +201,15 @@ func WriteFont(f *FontSpec, lay Layout) ([]byte, error) {
 		cs := ObfuscateCharstring(plain, lay.LenIV)
 		fmt.Fprintf(&priv, "/%s %d %s ", name, len(cs), rd)
 		priv.Write(cs)
-		fmt.Fprintf(&priv, " %s\n", nd)
+		fmt.Fprintf(&priv, " %s%s", nd, nl)
 	}
-	priv.WriteString("end\nend\nreadonly put\nnoaccess put\ndup /FontName get exch definefont pop\n")
+	priv.WriteString("end" + nl + "end" + nl + "readonly put" + nl + "noaccess put" + nl + "dup /FontName get exch definefont pop" + nl)
 	if lay.Cont != "clear" {
-		priv.WriteString("mark currentfile closefile\n")
+		priv.WriteString("mark currentfile closefile" + nl)
 		for i := 0; i < 8; i++ {
-			trailer.WriteString(strings.Repeat("0", 64) + "\n")
+			trailer.WriteString(strings.Repeat("0", 64) + nl)
 		}
-		trailer.WriteString("cleartomark\n")
+		trailer.WriteString("cleartomark" + nl)
 	}
 
 	switch lay.Cont {
@@ -210,14 +230,14 @@ func WriteFont(f *FontSpec, lay Layout) ([]byte, error) {
 			for i, c := range cipher {
 				out = append(out, hexd[c>>4], hexd[c&15])
 				if i%32 == 31 {
-					out = append(out, '\n')
+					out = append(out, nl...)
 				}
 			}
-			out = append(out, '\n')
+			out = append(out, nl...)
 			return append(out, trailer.Bytes()...), nil
 		case "bin":
 			out := append(clear.Bytes(), cipher...)
-			out = append(out, '\n')
+			out = append(out, nl...)
 			return append(out, trailer.Bytes()...), nil
 		default:
 			return PFBWrap(clear.Bytes(), cipher, trailer.Bytes()), nil
